@@ -13,7 +13,10 @@
  *   5     list/set header, symbolic size >= 0 and element type; reader accepts iff size <= remaining
  *   6     binary (and string via strlen) of LEN symbolic bytes         LEN 0..6
  *   7     double (non-NaN bit patterns, see README: CBMC does not keep NaN payloads)
- *   8     stand-alone bool and struct begin/end/stop bookkeeping                                         */
+ *   8     stand-alone bool and struct begin/end/stop bookkeeping
+ *   9     struct nesting guard: K <= 36 nested struct frames opened on the decoder (bytes: K struct field headers) with a field
+ *         read in each: beyond THRIFT_MAX_NESTING the decoder reports an error and never indexes outside last_field_id[]
+ *         (CBMC's array-bounds checks on the real code are the memory-safety oracle); then all frames are closed          */
 #include "verif_e1.h"
 #include "thrift/thrift_encode.h"
 #include "thrift/thrift_decode.h"
@@ -310,6 +313,31 @@ void harness(void) {
     CHECK(!thrift_read_field_begin(&dec, &t, &id), "outer STOP");
     thrift_read_struct_end(&dec);
     CHECK(dec.status == CARQUET_OK && dec.reader.pos == BUF.size && dec.nesting_level == 0, "bytes consumed == bytes produced");
+    free(in);
+#elif MODE == 9
+#ifdef KNEST
+    unsigned k = KNEST;                     /* one nesting depth per obligation (the symbolic-depth form takes ~10 min) */
+#else
+    unsigned k = IN.type; VERIF_ASSUME(k <= 36);
+#endif
+    /* the byte sequence a deeply nested unknown struct presents: field 1 of type STRUCT, k times; then symbolic bytes */
+    uint8_t* in = malloc(40); VERIF_NOTNULL(in);
+    for (unsigned i = 0; i < 40; i++) in[i] = i < k ? 0x1C : IN.b[i & 7];
+    thrift_decoder_init(&dec, in, 40);
+    thrift_type_t t; int16_t id;
+    unsigned opened = 0;
+    for (unsigned i = 0; i <= k; i++) {
+        thrift_read_struct_begin(&dec);
+        if (dec.status != CARQUET_OK) break;
+        opened++;
+        CHECK(dec.nesting_level >= 1 && dec.nesting_level <= THRIFT_MAX_NESTING, "open frames never exceed the decoder's frame array");
+        if (i < k) { bool more = thrift_read_field_begin(&dec, &t, &id); CHECK(!more || (t == THRIFT_TYPE_STRUCT && id == 1) || dec.status != CARQUET_OK, "nested struct field header"); }
+    }
+    CHECK(opened <= THRIFT_MAX_NESTING, "nesting deeper than THRIFT_MAX_NESTING is refused with an error");
+    CHECK(k < THRIFT_MAX_NESTING ? dec.status == CARQUET_OK : true, "nesting within the limit is accepted");
+    (void)thrift_read_field_begin(&dec, &t, &id);          /* a field header at the deepest level (symbolic bytes) */
+    for (unsigned i = 0; i < opened; i++) thrift_read_struct_end(&dec);
+    CHECK(dec.nesting_level >= 0 && dec.nesting_level <= THRIFT_MAX_NESTING, "frame counter stays inside the array after closing");
     free(in);
 #endif
     enc_done();
